@@ -19,12 +19,15 @@ package c03
 
 import (
 	"fmt"
+	"math"
 	"sort"
+	"strconv"
 	"strings"
 	"testing"
 
 	"github.com/XiaoMi/Gaea/parser/ast"
 	"github.com/XiaoMi/Gaea/parser/format"
+	types "github.com/XiaoMi/Gaea/parser/tidb-types"
 	driver "github.com/XiaoMi/Gaea/parser/tidb-types/parser_driver"
 	"github.com/XiaoMi/Gaea/proxy/plan"
 	"github.com/XiaoMi/Gaea/util"
@@ -47,7 +50,11 @@ func genKeyExpr(t *rapid.T, f *shardfix.Fixture, placed, unplaced []shardfix.Key
 	pick := func(ks []shardfix.KeyVal) string {
 		k := rapid.SampledFrom(ks).Draw(t, name+"_key")
 		if len(k.Alt) > 0 && rapid.IntRange(0, 3).Draw(t, name+"_alt") == 0 {
-			return k.Alt[0]
+			return k.Alt[0] // the same value in its other spelling ('17' for 17, '2017-06-01' for a midnight)
+		}
+		if k.Type == shardfix.KeyInt && k.I >= 0 && rapid.IntRange(0, 11).Draw(t, name+"_spell") == 0 {
+			// further quoted spellings of the same number
+			return "'" + rapid.SampledFrom([]string{"0", "00", "+", "+0"}).Draw(t, name+"_prefix") + k.Lit + "'"
 		}
 		return k.Lit
 	}
@@ -729,11 +736,185 @@ func checkCase(c c03Case) (o pbt.Outcome) {
 		o.NonTrivial = len(in.rows) >= 2 && len(seenTable) >= 2
 		problem = ver.verify(all)
 	}
+	if problem == "" && unroutable == 0 {
+		// the rows are where the point query with the same spelling looks; now the
+		// other spellings of the same number and the rule's arithmetic
+		problem = crossSpelling(f, in, classes, target, keyCol, &o, c.SQL)
+	}
 	if problem == "" {
 		return
 	}
 	o.Violation = problem
 	return
+}
+
+// ---------------------------------------------------------------- numbers across spellings
+
+// numLiteral reads an integer sharding literal: 17, '17', '017', '+17', '+017'.
+// style: "plain", "quoted", "quoted_zeros", "quoted_plus", "quoted_plus_zeros".
+func numLiteral(e ast.ExprNode) (n uint64, style string, ok bool) {
+	v, isVal := e.(*driver.ValueExpr)
+	if !isVal {
+		return 0, "", false
+	}
+	switch v.Kind() {
+	case types.KindInt64:
+		if v.GetInt64() < 0 {
+			return 0, "", false
+		}
+		return uint64(v.GetInt64()), "plain", true
+	case types.KindUint64:
+		if v.GetUint64() > math.MaxInt64 {
+			return 0, "", false
+		}
+		return v.GetUint64(), "plain", true
+	case types.KindString:
+		s := v.GetString()
+		style = "quoted"
+		if strings.HasPrefix(s, "+") {
+			s, style = s[1:], "quoted_plus"
+		}
+		if len(s) > 1 && s[0] == '0' {
+			s = strings.TrimLeft(s, "0")
+			if s == "" {
+				s = "0"
+			}
+			style += "_zeros"
+		}
+		if !isIntText(s) {
+			return 0, "", false
+		}
+		u, err := strconv.ParseUint(s, 10, 64)
+		if err != nil || u > math.MaxInt64 {
+			return 0, "", false
+		}
+		return u, style, true
+	}
+	return 0, "", false
+}
+
+func spell(n uint64, style string) string {
+	d := strconv.FormatUint(n, 10)
+	switch style {
+	case "plain":
+		return d
+	case "quoted":
+		return "'" + d + "'"
+	case "quoted_zeros":
+		return "'00" + d + "'"
+	case "quoted_plus":
+		return "'+" + d + "'"
+	default:
+		return "'+0" + d + "'"
+	}
+}
+
+// refPlace is the rule's arithmetic for a non-negative integer key, written
+// from the rule descriptions (hash and mod: n mod tables; range: n div limit;
+// mycat_long: the partition of n mod 1024), where there is one.
+func refPlace(l shardfix.Layout, n uint64) (idx int, placed bool, known bool) {
+	tables := 0
+	for _, c := range l.Locations {
+		tables += c
+	}
+	switch l.Kind {
+	case "hash", "mod", "mycat_mod":
+		return int(n % uint64(tables)), true, true
+	case "range":
+		q := n / uint64(l.RowLimit)
+		if q >= uint64(tables) {
+			return 0, false, true
+		}
+		return int(q), true, true
+	case "mycat_long":
+		var counts, lens []int
+		for _, p := range strings.Split(l.PartitionCount, ",") {
+			v, _ := strconv.Atoi(strings.TrimSpace(p))
+			counts = append(counts, v)
+		}
+		for _, p := range strings.Split(l.PartitionLength, ",") {
+			v, _ := strconv.Atoi(strings.TrimSpace(p))
+			lens = append(lens, v)
+		}
+		slot, part, upper := int(n&1023), 0, 0
+		for i := range counts {
+			for j := 0; j < counts[i]; j++ {
+				upper += lens[i]
+				if slot < upper {
+					return part, true, true
+				}
+				part++
+			}
+		}
+	}
+	return 0, false, false
+}
+
+// crossSpelling: a row whose sharding value is an integer must be stored where
+// the point queries on the SAME NUMBER in its other spellings look, for every
+// spelling this rule treats as a number. Whether a spelling is numeric for the
+// rule is not assumed: it is read off the tree under test on small numbers
+// (5 and '5' must already agree there), so a parser that only mishandles wide
+// numbers cannot hide. Where the rule has simple arithmetic the table must also
+// be the one that arithmetic gives.
+func crossSpelling(f *shardfix.Fixture, in *insertInfo, classes []rowClass, target, keyCol string, o *pbt.Outcome, sql string) string {
+	l := f.Layout
+	if l.KeyType != shardfix.KeyInt {
+		return ""
+	}
+	numeric := map[string]bool{"plain": true}
+	probed := map[string]bool{"plain": true}
+	isNumeric := func(style string) bool {
+		if probed[style] {
+			return numeric[style]
+		}
+		probed[style] = true
+		for _, n := range []uint64{0, 1, 2, 3, 5, 7, 10, 11, 13, 100, 255, 1000} {
+			a, ok1 := pointRoute(f, target, keyCol, spell(n, "plain"))
+			b, ok2 := pointRoute(f, target, keyCol, spell(n, style))
+			if ok1 != ok2 || (ok1 && a != b) {
+				return false
+			}
+		}
+		numeric[style] = true
+		return true
+	}
+	for i, rc := range classes {
+		if !rc.routable || rc.nonLit || rc.seqKey {
+			continue
+		}
+		node, has := in.rows[i].nodes[keyCol]
+		if !has {
+			continue
+		}
+		n, style, ok := numLiteral(node)
+		if !ok || !isNumeric(style) {
+			continue
+		}
+		o.Labels = append(o.Labels, "number_spelled_"+style)
+		if n >= 1<<31 {
+			o.Labels = append(o.Labels, "number_wide_"+style)
+		}
+		for _, other := range []string{"plain", "quoted"} {
+			if other == style || !isNumeric(other) {
+				continue
+			}
+			idx, ok := pointRoute(f, target, keyCol, spell(n, other))
+			if !ok || idx != rc.want {
+				where := "is refused or finds no table"
+				if ok {
+					where = fmt.Sprintf("is routed to table %d", idx)
+				}
+				return fmt.Sprintf("%s rule: row %d of %q stores %s = %s in table %d, but the point query %s = %s on the same number %s (this rule places small numbers identically in both spellings)",
+					l.Kind, i, sql, keyCol, in.rows[i].vals[keyCol], rc.want, keyCol, spell(n, other), where)
+			}
+		}
+		if idx, placed, known := refPlace(l, n); known && (!placed || idx != rc.want) {
+			return fmt.Sprintf("%s rule: row %d of %q stores %s = %s in table %d, but the rule's arithmetic places %d in table %d (placed=%v)",
+				l.Kind, i, sql, keyCol, in.rows[i].vals[keyCol], rc.want, n, idx, placed)
+		}
+	}
+	return ""
 }
 
 type loc struct{ slice, db string }
